@@ -39,7 +39,7 @@ for p in props:
     })
 man = {
     "version": 1,
-    "setup_cmd": "cd lean && lake build",
+    "setup_cmd": "/venv/bin/python harness/instantiate.py && cd lean && lake build",
     "hooks": {
         "guard": "GALACTICS_BEYOND_VERIF",
         "enable": "no instrumentation hooks are compiled into /repo; observation is done by wrapping objects inside the harness process",
